@@ -51,8 +51,31 @@ pub fn child() {
 					q.extend(t(if m >= 2 { m - 2 } else { 0 }));
 					q.extend(t(m - 1));
 					// traversing the result fragment by fragment is iterative as well
-					let count = v.traverse().count();
+					let mut count = v.traverse().count();
 					let volume = v.volume();
+					// ... whichever way the traversal is consumed: asking for its size, collecting it, folding it, stepping it
+					// by hand, counting with a predicate (every route must see the same m fragments; a different number is
+					// reported through `traverse`)
+					let (lo, hi) = v.traverse().size_hint();
+					let routes = [
+						v.traverse().collect::<Vec<_>>().len(),
+						v.traverse().fold(0usize, |n, _| n + 1),
+						v.traverse().map(|_| 1usize).sum::<usize>(),
+						v.traverse().last().map(|(i, _)| i + 1).unwrap_or(0),
+						v.count(|_, _| true),
+						{
+							let mut it = v.traverse();
+							let mut n = 0usize;
+							while let Some((i, f)) = it.next() {
+								n = i + 1;
+								let _ = f.is_value();
+							}
+							n
+						},
+					];
+					if routes.iter().any(|r| *r != count) || lo > count || hi.map(|h| h < count).unwrap_or(false) {
+						count = usize::MAX >> 12;
+					}
 					std::mem::forget(v); // dropping a deep value is recursive and outside C03
 					json!({"q": q, "traverse": count, "volume": volume})
 				}
@@ -71,12 +94,18 @@ pub fn child() {
 
 pub fn replay_nest(rep: &mut Report, rec: &J) {
 	rep.count("nest_vectors");
-	let exe = std::env::current_exe().unwrap();
-	for (flexible, slice) in [(false, false), (true, true)] {
+	let release = std::env::current_exe().unwrap();
+	let debug = std::env::var("JSV_NEST_CHILD_DEBUG").ok().map(std::path::PathBuf::from);
+	let mut runs: Vec<(&std::path::Path, &str, bool, bool)> = vec![(&release, "optimised", false, false), (&release, "optimised", true, true)];
+	if let Some(d) = &debug {
+		runs.push((d, "unoptimised", false, true));
+		runs.push((d, "unoptimised", true, false));
+	}
+	for (exe, build, flexible, slice) in runs {
 		let mut req = rec.clone();
 		req["flexible"] = json!(flexible);
 		req["slice"] = json!(slice);
-		let mut child = std::process::Command::new(&exe)
+		let mut child = std::process::Command::new(exe)
 			.arg("nest-child")
 			.stdin(std::process::Stdio::piped())
 			.stdout(std::process::Stdio::piped())
@@ -85,7 +114,7 @@ pub fn replay_nest(rep: &mut Report, rec: &J) {
 			.unwrap_or_else(|e| tool_error(&format!("spawn nest-child: {e}")));
 		child.stdin.take().unwrap().write_all(req.to_string().as_bytes()).unwrap();
 		rep.count("nest_calls");
-		let ctx = json!({"family": rec["name"], "n": rec["n"], "flexible": flexible, "slice_entry": slice, "stack_bytes": STACK, "vector": rec});
+		let ctx = json!({"family": rec["name"], "n": rec["n"], "flexible": flexible, "slice_entry": slice, "stack_bytes": STACK, "build": build, "vector": rec});
 		// the child gets a generous time budget (a 2*10^6-deep document parses in well under a second):
 		// a parser that does not come back is data (C03: "never ... loops"), not a tool failure
 		let limit = std::env::var("JSV_NEST_S").ok().and_then(|s| s.parse::<u64>().ok()).unwrap_or(120);
